@@ -614,7 +614,8 @@ impl ObjectReceiver {
     }
 
     fn push_from_cache(&mut self, now: std::time::SystemTime) {
-        if self.nb_block() == 0 {
+        // Nothing can be replayed before the OTI is known; an empty object has no block to wait for
+        if self.oti.is_none() || (self.nb_block() == 0 && self.transfer_length != Some(0)) {
             return;
         }
 
